@@ -26,13 +26,32 @@ pub struct Built {
 
 /// writes a scratch crate with the given sources (name -> text, one binary each), builds and runs each
 pub fn build_and_run(prop: &str, bins: &[(&str, String)], wd: &Watchdog) -> Result<BTreeMap<String, Built>, String> {
+    build_and_run_with(prop, bins, wd, "")
+}
+
+pub fn build_and_run_with(prop: &str, bins: &[(&str, String)], wd: &Watchdog, extra_deps: &str) -> Result<BTreeMap<String, Built>, String> {
+    build_and_run_args(prop, bins, wd, extra_deps, &[])
+}
+
+pub fn build_and_run_args(prop: &str, bins: &[(&str, String)], wd: &Watchdog, extra_deps: &str, args: &[String]) -> Result<BTreeMap<String, Built>, String> {
     let dir = verif_root().join("out").join("progs").join(prop);
-    let _ = std::fs::remove_dir_all(dir.join("src"));
     std::fs::create_dir_all(dir.join("src/bin")).map_err(|e| e.to_string())?;
-    std::fs::write(dir.join("Cargo.toml"), "[package]\nname = \"gvprog\"\nversion = \"0.0.0\"\nedition = \"2021\"\n\n[dependencies]\ngdsl = { path = \"/repo\" }\n\n[profile.dev]\ndebug = 0\nopt-level = 0\n\n[workspace]\n").map_err(|e| e.to_string())?;
+    // remove stale binaries' sources, keep unchanged files untouched (cargo then skips the rebuild)
+    if let Ok(rd) = std::fs::read_dir(dir.join("src/bin")) {
+        for e in rd.filter_map(|e| e.ok()) {
+            let name = e.file_name().to_string_lossy().to_string();
+            if !bins.iter().any(|(b, _)| format!("{}.rs", b) == name) {
+                let _ = std::fs::remove_file(e.path());
+            }
+        }
+    }
+    std::fs::write(dir.join("Cargo.toml"), "[package]\nname = \"gvprog\"\nversion = \"0.0.0\"\nedition = \"2021\"\n\n[dependencies]\ngdsl = { path = \"/repo\" }\nEXTRA_DEPS\n[profile.dev]\ndebug = 0\nopt-level = 0\n\n[workspace]\n".replace("EXTRA_DEPS", extra_deps)).map_err(|e| e.to_string())?;
     let _ = std::fs::copy("/repo/Cargo.lock", dir.join("Cargo.lock"));
     for (name, src) in bins {
-        std::fs::write(dir.join("src/bin").join(format!("{}.rs", name)), src).map_err(|e| e.to_string())?;
+        let path = dir.join("src/bin").join(format!("{}.rs", name));
+        if std::fs::read_to_string(&path).map_or(true, |old| old != *src) {
+            std::fs::write(&path, src).map_err(|e| e.to_string())?;
+        }
     }
     let target = verif_root().join("harness").join("target").join("progs");
     let mut out = BTreeMap::new();
@@ -45,7 +64,7 @@ pub fn build_and_run(prop: &str, bins: &[(&str, String)], wd: &Watchdog) -> Resu
             continue;
         }
         let bin = target.join("debug").join(name);
-        let r = Command::new(&bin).output().map_err(|e| format!("cannot run {}: {}", bin.display(), e))?;
+        let r = Command::new(&bin).args(args).output().map_err(|e| format!("cannot run {}: {}", bin.display(), e))?;
         wd.tick();
         out.insert(name.to_string(), Built { ok: r.status.success(), stdout: String::from_utf8_lossy(&r.stdout).to_string(), stderr: String::from_utf8_lossy(&r.stderr).to_string() });
     }
@@ -801,4 +820,349 @@ pub fn c15_api_programs(ctx: &mut Ctx) {
         }
     }
     ctx.stats.sample_kind("api-program", 1, || json!({"api_program_for": "each flavour", "first_lines": c15_api_program("digraph").lines().skip(3).take(12).collect::<Vec<_>>()}));
+}
+
+// =====================================================================
+// Payload-type independence (supports C03 C04 C05 C06 C09 C10 C11 C12 C18):
+// every other check instantiates the library with (u16, i32-like, u32). A
+// generated program runs proptest-drawn scripts with other payload types —
+// heap-allocated keys, zero-sized edge values, extreme numeric values — and
+// the traces, rendered through key indices, must equal the baseline trace.
+// =====================================================================
+
+#[derive(Clone, Debug, PartialEq, Eq, Hash, Serialize, Deserialize)]
+pub enum PSt {
+    Con(usize, usize, usize),
+    Try(usize, usize, usize),
+    Dis(usize, usize),
+    Iso(usize),
+    Look(usize, usize),
+    Lists,
+    /// root, algo 0..4, term 0..3, target (-1 none), transposed, meth 0..3
+    Search(usize, u8, u8, i64, bool, u8),
+    /// root, pre?, transposed, edges?, meth
+    Order(usize, bool, bool, bool, u8),
+    GIns(usize),
+    GRem(usize),
+    GViews,
+    Scc,
+    Serde,
+}
+
+#[derive(Clone, Debug, PartialEq, Eq, Hash, Serialize, Deserialize)]
+pub struct PScript {
+    pub n: usize,
+    pub prio: Vec<i64>,
+    pub steps: Vec<PSt>,
+}
+
+fn pscript_strategy(prop: &'static str) -> impl Strategy<Value = PScript> {
+    (2usize..=6, 1i64..=3).prop_flat_map(move |(n, pr)| {
+        let node = move || 0..n;
+        let edge_ops = prop_oneof![
+            5 => (node(), node(), 0usize..4).prop_map(|(u, v, e)| PSt::Con(u, v, e)),
+            2 => (node(), 0usize..4).prop_map(|(u, e)| PSt::Con(u, u, e)),
+            2 => (node(), node(), 0usize..4).prop_map(|(u, v, e)| PSt::Try(u, v, e)),
+            3 => (node(), node()).prop_map(|(u, v)| PSt::Dis(u, v)),
+            1 => node().prop_map(PSt::Iso),
+        ];
+        let specific: BoxedStrategy<PSt> = match prop {
+            "C03" => prop_oneof![2 => Just(PSt::Lists), 2 => (node(), node()).prop_map(|(u, v)| PSt::Look(u, v))].boxed(),
+            "C04" => (node(), 0u8..1, 0u8..2, -1i64..7, any::<bool>(), 0u8..3).prop_map(|(r, a, t, tg, tr, m)| PSt::Search(r, a, t, tg, tr, m)).boxed(),
+            "C05" => (node(), 1u8..2, 0u8..2, -1i64..7, any::<bool>(), 0u8..3).prop_map(|(r, a, t, tg, tr, m)| PSt::Search(r, a, t, tg, tr, m)).boxed(),
+            "C06" => (node(), 2u8..4, 0u8..2, -1i64..7, any::<bool>(), 0u8..3).prop_map(|(r, a, t, tg, tr, m)| PSt::Search(r, a, t, tg, tr, m)).boxed(),
+            "C09" => (node(), 0u8..4, 2u8..3, -1i64..0, any::<bool>(), 0u8..3).prop_map(|(r, a, t, tg, tr, m)| PSt::Search(r, a, t, tg, tr, m)).boxed(),
+            "C10" => (node(), any::<bool>(), any::<bool>(), any::<bool>(), 0u8..3).prop_map(|(r, p, tr, e, m)| PSt::Order(r, p, tr, e, m)).boxed(),
+            "C11" => prop_oneof![3 => node().prop_map(PSt::GIns), 1 => Just(PSt::Scc)].boxed(),
+            "C12" => prop_oneof![3 => node().prop_map(PSt::GIns), 1 => Just(PSt::Serde)].boxed(),
+            _ => prop_oneof![3 => node().prop_map(PSt::GIns), 1 => (0..n + 1).prop_map(PSt::GRem), 2 => Just(PSt::GViews)].boxed(),
+        };
+        let step = prop_oneof![3 => edge_ops, 2 => specific];
+        (proptest::collection::vec(0..pr, n), proptest::collection::vec(step, 4..=28)).prop_map(move |(prio, mut steps)| {
+            if matches!(prop, "C11" | "C12") {
+                // every node is a member before the container-wide call (precondition), and one final call
+                let mut pre: Vec<PSt> = (0..n).map(PSt::GIns).collect();
+                pre.append(&mut steps);
+                steps = pre;
+                steps.push(if prop == "C11" { PSt::Scc } else { PSt::Serde });
+            }
+            steps.push(PSt::Lists);
+            PScript { n, prio, steps }
+        })
+    })
+}
+
+const PAYLOAD_PRELUDE: &str = r#"#![allow(unused, clippy::all)]
+use std::cell::RefCell;
+use std::collections::HashMap;
+use std::fmt::{Debug, Display};
+use std::hash::Hash;
+#[derive(Clone, Copy, Debug)]
+enum St { Con(usize, usize, usize), Try(usize, usize, usize), Dis(usize, usize), Iso(usize), Look(usize, usize), Lists, Search(usize, u8, u8, i64, bool, u8), Order(usize, bool, bool, bool, u8), GIns(usize), GRem(usize), GViews, Scc, Serde }
+fn reject(s: usize, t: usize) -> bool { (s + 2 * t) % 3 == 0 }
+
+macro_rules! body {
+    ($m:ident, $directed:tt) => {
+        pub fn run<K, N, E>(n: usize, prio: &[i64], steps: &[St], mk: &dyn Fn(usize) -> K, mn: &dyn Fn(i64) -> N, me: &dyn Fn(usize) -> E, ek: &dyn Fn(&E) -> usize) -> Vec<String>
+        where
+            K: Clone + Hash + Eq + Display + serde::Serialize + serde::de::DeserializeOwned,
+            N: Clone + Ord + serde::Serialize + serde::de::DeserializeOwned,
+            E: Clone + serde::Serialize + serde::de::DeserializeOwned,
+        {
+            use gdsl::$m::*;
+            let nodes: Vec<Node<K, N, E>> = (0..n).map(|i| Node::new(mk(i), mn(prio[i]))).collect();
+            let idx: HashMap<K, usize> = (0..n + 2).map(|i| (mk(i), i)).collect();
+            let ix = |k: &K| -> usize { *idx.get(k).unwrap_or(&999) };
+            let tri = |e: &Edge<K, N, E>| -> (usize, usize, usize) { (ix(e.0.key()), ix(e.1.key()), ek(&e.2)) };
+            let mut g: Graph<K, N, E> = Graph::new();
+            let mut out: Vec<String> = vec![];
+            for st in steps {
+                let line = std::panic::catch_unwind(std::panic::AssertUnwindSafe(|| -> String {
+                    match *st {
+                        St::Con(u, v, e) => { nodes[u].connect(&nodes[v], me(e)); format!("con {} {}", u, v) }
+                        St::Try(u, v, e) => format!("try {} {} -> {}", u, v, nodes[u].try_connect(&nodes[v], me(e)).is_ok()),
+                        St::Dis(u, v) => format!("dis {} {} -> {:?}", u, v, nodes[u].disconnect(&mk(v)).map(|e| ek(&e)).map_err(|_| ())),
+                        St::Iso(u) => { nodes[u].isolate(); format!("iso {}", u) }
+                        St::Look(u, v) => body!(@look $directed, nodes, u, v, mk, ix),
+                        St::Lists => {
+                            let mut s = String::from("lists");
+                            for (i, nd) in nodes.iter().enumerate() { s.push_str(&format!(" {}:{}", i, body!(@lists $directed, nd, tri))); }
+                            s
+                        }
+                        St::Search(r, a, t, tg, tr, m) => {
+                            let calls: RefCell<Vec<(usize, usize, usize)>> = RefCell::new(vec![]);
+                            let mut fe = |e: &Edge<K, N, E>| calls.borrow_mut().push(tri(e));
+                            let mut fl = |e: &Edge<K, N, E>| -> bool { let t3 = tri(e); calls.borrow_mut().push(t3); !reject(t3.0, t3.1) };
+                            let tk = if tg >= 0 { Some(mk(tg as usize)) } else { None };
+                            let res = body!(@search $directed, nodes[r], a, t, tk, tr, m, fe, fl, tri, ix);
+                            format!("search {} a{} t{} tg{} tr{} m{} -> {} calls {:?}", r, a, t, tg, tr && $directed, m, res, calls.borrow())
+                        }
+                        St::Order(r, pre, tr, edges, m) => {
+                            let calls: RefCell<Vec<(usize, usize, usize)>> = RefCell::new(vec![]);
+                            let mut fe = |e: &Edge<K, N, E>| calls.borrow_mut().push(tri(e));
+                            let mut fl = |e: &Edge<K, N, E>| -> bool { let t3 = tri(e); calls.borrow_mut().push(t3); !reject(t3.0, t3.1) };
+                            let res = body!(@order $directed, nodes[r], pre, tr, edges, m, fe, fl, tri, ix);
+                            format!("order {} pre{} tr{} e{} m{} -> {} calls {:?}", r, pre, tr && $directed, edges, m, res, calls.borrow())
+                        }
+                        St::GIns(u) => format!("ins {} -> {} len {}", u, g.insert(nodes[u].clone()), g.len()),
+                        St::GRem(u) => format!("rem {} -> {:?} contains {}", u, g.remove(&mk(u)).map(|x| ix(x.key())), g.contains(&mk(u))),
+                        St::GViews => {
+                            let ks = |v: Vec<Node<K, N, E>>| { let mut k: Vec<usize> = v.iter().map(|x| ix(x.key())).collect(); k.sort(); k };
+                            let mut it: Vec<usize> = g.iter().map(|(k, _)| ix(k)).collect(); it.sort();
+                            format!("views to_vec {:?} iter {:?} orphans {:?} {}", ks(g.to_vec()), it, ks(g.orphans()), body!(@views $directed, g, ks))
+                        }
+                        St::Scc => body!(@scc $directed, g, ix),
+                        St::Serde => {
+                            let doc = serde_json::to_string(&g).unwrap();
+                            let back: Graph<K, N, E> = serde_json::from_str(&doc).unwrap();
+                            let mut members: Vec<(usize, Vec<(usize, usize)>)> = back.iter().map(|(k, nd)| (ix(k), { let mut l = body!(@outlist $directed, nd, tri); if !$directed { l.sort(); } l })).collect();
+                            members.sort();
+                            format!("serde {:?}", members)
+                        }
+                    }
+                }));
+                match line { Ok(l) => out.push(l), Err(_) => { out.push("PANIC".into()); break; } }
+            }
+            out
+        }
+    };
+    (@look true, $nodes:ident, $u:ident, $v:ident, $mk:ident, $ix:ident) => { format!("look {} {} -> {} {:?} {:?} deg {} {} root {} leaf {} orphan {}", $u, $v, $nodes[$u].is_connected(&$mk($v)), $nodes[$u].find_outbound(&$mk($v)).map(|x| $ix(x.key())), $nodes[$u].find_inbound(&$mk($v)).map(|x| $ix(x.key())), $nodes[$u].out_degree(), $nodes[$u].in_degree(), $nodes[$u].is_root(), $nodes[$u].is_leaf(), $nodes[$u].is_orphan()) };
+    (@look false, $nodes:ident, $u:ident, $v:ident, $mk:ident, $ix:ident) => { format!("look {} {} -> {} {:?} deg {} orphan {}", $u, $v, $nodes[$u].is_connected(&$mk($v)), $nodes[$u].find_adjacent(&$mk($v)).map(|x| $ix(x.key())), $nodes[$u].degree(), $nodes[$u].is_orphan()) };
+    (@lists true, $nd:ident, $tri:ident) => { format!("out{:?}in{:?}", $nd.iter_out().map(|e| { let t = $tri(&e); (t.1, t.2) }).collect::<Vec<_>>(), $nd.iter_in().map(|e| { let t = $tri(&e); (t.0, t.2) }).collect::<Vec<_>>()) };
+    (@lists false, $nd:ident, $tri:ident) => { format!("adj{:?}", $nd.iter().map(|e| { let t = $tri(&e); (t.1, t.2) }).collect::<Vec<_>>()) };
+    (@outlist true, $nd:ident, $tri:ident) => { $nd.iter_out().map(|e| { let t = $tri(&e); (t.1, t.2) }).collect::<Vec<(usize, usize)>>() };
+    (@outlist false, $nd:ident, $tri:ident) => { $nd.iter().map(|e| { let t = $tri(&e); (t.1, t.2) }).collect::<Vec<(usize, usize)>>() };
+    (@views true, $g:ident, $ks:ident) => { format!("roots {:?} leaves {:?}", $ks($g.roots()), $ks($g.leaves())) };
+    (@views false, $g:ident, $ks:ident) => { String::new() };
+    (@scc true, $g:ident, $ix:ident) => {{ let mut comps: Vec<Vec<usize>> = $g.scc().iter().map(|c| { let mut v: Vec<usize> = c.iter().map(|x| $ix(x.key())).collect(); v.sort(); v }).collect(); comps.sort(); format!("scc {:?}", comps) }};
+    (@scc false, $g:ident, $ix:ident) => { String::from("scc n/a") };
+    (@search $directed:tt, $root:expr, $a:ident, $t:ident, $tk:ident, $tr:ident, $m:ident, $fe:ident, $fl:ident, $tri:ident, $ix:ident) => {{
+        macro_rules! go { ($b:expr) => {{
+            let mut b = $b;
+            if let Some(k) = $tk.as_ref() { b = b.target(k); }
+            body!(@tr $directed, b, $tr);
+            match $m { 1 => b = b.for_each(&mut $fe), 2 => b = b.filter(&mut $fl), _ => {} }
+            match $t {
+                0 => format!("{:?}", b.search().map(|x| $ix(x.key()))),
+                1 => format!("{:?}", b.search_path().map(|p| p.iter_edges().map(|e| $tri(&e)).collect::<Vec<_>>())),
+                _ => format!("{:?}", b.search_cycle().map(|p| p.iter_edges().map(|e| $tri(&e)).collect::<Vec<_>>())),
+            }
+        }} }
+        match $a { 0 => go!($root.bfs()), 1 => go!($root.dfs()), 2 => go!($root.pfs().min()), _ => go!($root.pfs().max()) }
+    }};
+    (@tr true, $b:ident, $tr:ident) => { if $tr { $b = $b.transpose(); } };
+    (@tr false, $b:ident, $tr:ident) => {};
+    (@order true, $root:expr, $pre:ident, $tr:ident, $edges:ident, $m:ident, $fe:ident, $fl:ident, $tri:ident, $ix:ident) => {{
+        let mut o = if $pre { $root.preorder() } else { $root.postorder() };
+        if $tr { o = o.transpose(); }
+        match $m { 1 => o = o.for_each(&mut $fe), 2 => o = o.filter(&mut $fl), _ => {} }
+        if $edges { format!("{:?}", o.search_edges().iter().map(|e| $tri(e)).collect::<Vec<_>>()) } else { format!("{:?}", o.search_nodes().iter().map(|x| $ix(x.key())).collect::<Vec<_>>()) }
+    }};
+    (@order false, $root:expr, $pre:ident, $tr:ident, $edges:ident, $m:ident, $fe:ident, $fl:ident, $tri:ident, $ix:ident) => {{
+        let mut o = if $pre { $root.order().pre() } else { $root.order().post() };
+        match $m { 1 => o = o.for_each(&mut $fe), 2 => o = o.filter(&mut $fl), _ => {} }
+        if $edges { format!("{:?}", o.search_edges().iter().map(|e| $tri(e)).collect::<Vec<_>>()) } else { format!("{:?}", o.search_nodes().iter().map(|x| $ix(x.key())).collect::<Vec<_>>()) }
+    }};
+}
+mod f_digraph { use super::*; body!(digraph, true); }
+mod f_sync_digraph { use super::*; body!(sync_digraph, true); }
+mod f_ungraph { use super::*; body!(ungraph, false); }
+mod f_sync_ungraph { use super::*; body!(sync_ungraph, false); }
+
+macro_rules! variants { ($m:ident, $name:expr, $si:expr, $n:expr, $prio:expr, $steps:expr) => {{
+    // baseline payloads, with and without edge values rendered
+    let t0 = $m::run::<u16, i32, u32>($n, $prio, $steps, &|i| i as u16, &|p| p as i32, &|e| e as u32, &|e| *e as usize);
+    let t0e = $m::run::<u16, i32, u32>($n, $prio, $steps, &|i| i as u16, &|p| p as i32, &|e| e as u32, &|_| 0);
+    // heap-allocated keys, zero-sized edge values
+    let t1 = $m::run::<String, i64, ()>($n, $prio, $steps, &|i| format!("key-{}-{}", i, "x".repeat(i % 3)), &|p| p, &|_| (), &|_| 0);
+    // extreme numeric values, heap-allocated node values (zero padded so that their order is the numeric order)
+    let t2 = $m::run::<u64, String, u64>($n, $prio, $steps, &|i| u64::MAX - 7 * i as u64, &|p| format!("{:06}", p), &|e| u64::MAX - e as u64, &|e| (u64::MAX - *e) as usize);
+    // zero-sized node values cannot order a pfs: skipped for N; tuple edge values
+    let t3 = $m::run::<char, i64, (u8, Vec<u8>)>($n, $prio, $steps, &|i| (b'a' + i as u8) as char, &|p| p, &|e| (e as u8, vec![e as u8; e]), &|e| e.0 as usize);
+    for (tag, a, b) in [("String-keys,unit-edges", &t0e, &t1), ("u64::MAX-values,String-node-values", &t0, &t2), ("char-keys,tuple-edges", &t0, &t3)] {
+        if a != b {
+            let i = a.iter().zip(b.iter()).position(|(x, y)| x != y).unwrap_or(a.len().min(b.len()));
+            println!("DIFF {} {} {} step {} :: baseline `{}` :: variant `{}`", $si, $name, tag, i, a.get(i).map(|s| s.as_str()).unwrap_or("<none>"), b.get(i).map(|s| s.as_str()).unwrap_or("<none>"));
+        } else {
+            println!("SAME {} {} {} {}", $si, $name, tag, a.len());
+        }
+    }
+}} }
+"#;
+
+/// the program is constant (scripts are read from a file given as argv[1]), so it is compiled once per
+/// state of /repo and shared by all properties
+fn payload_program() -> String {
+    let mut s = String::from(PAYLOAD_PRELUDE);
+    s.push_str(r#"
+fn parse(path: &str) -> Vec<(usize, Vec<i64>, Vec<St>)> {
+    let text = std::fs::read_to_string(path).expect("script file");
+    let mut out = vec![];
+    let mut cur: Option<(usize, Vec<i64>, Vec<St>)> = None;
+    for l in text.lines() {
+        let f: Vec<&str> = l.split_whitespace().collect();
+        if f.is_empty() { continue; }
+        let u = |i: usize| -> usize { f[i].parse().unwrap() };
+        let b = |i: usize| -> bool { f[i] == "1" };
+        match f[0] {
+            "S" => { if let Some(c) = cur.take() { out.push(c); } cur = Some((u(1), f[2].split(',').filter(|x| !x.is_empty()).map(|x| x.parse().unwrap()).collect(), vec![])); }
+            "Con" => cur.as_mut().unwrap().2.push(St::Con(u(1), u(2), u(3))),
+            "Try" => cur.as_mut().unwrap().2.push(St::Try(u(1), u(2), u(3))),
+            "Dis" => cur.as_mut().unwrap().2.push(St::Dis(u(1), u(2))),
+            "Iso" => cur.as_mut().unwrap().2.push(St::Iso(u(1))),
+            "Look" => cur.as_mut().unwrap().2.push(St::Look(u(1), u(2))),
+            "Lists" => cur.as_mut().unwrap().2.push(St::Lists),
+            "Search" => cur.as_mut().unwrap().2.push(St::Search(u(1), u(2) as u8, u(3) as u8, f[4].parse().unwrap(), b(5), u(6) as u8)),
+            "Order" => cur.as_mut().unwrap().2.push(St::Order(u(1), b(2), b(3), b(4), u(5) as u8)),
+            "GIns" => cur.as_mut().unwrap().2.push(St::GIns(u(1))),
+            "GRem" => cur.as_mut().unwrap().2.push(St::GRem(u(1))),
+            "GViews" => cur.as_mut().unwrap().2.push(St::GViews),
+            "Scc" => cur.as_mut().unwrap().2.push(St::Scc),
+            "Serde" => cur.as_mut().unwrap().2.push(St::Serde),
+            _ => {}
+        }
+    }
+    if let Some(c) = cur.take() { out.push(c); }
+    out
+}
+fn main() {
+    std::panic::set_hook(Box::new(|_| {}));
+    let path = std::env::args().nth(1).expect("usage: payload <script file>");
+    for (i, (n, prio, steps)) in parse(&path).iter().enumerate() {
+        variants!(f_digraph, "digraph", i, *n, prio, steps);
+        variants!(f_sync_digraph, "sync_digraph", i, *n, prio, steps);
+        variants!(f_ungraph, "ungraph", i, *n, prio, steps);
+        variants!(f_sync_ungraph, "sync_ungraph", i, *n, prio, steps);
+    }
+}
+"#);
+    s
+}
+
+fn pst_line(s: &PSt) -> String {
+    let b = |x: &bool| if *x { 1 } else { 0 };
+    match s {
+        PSt::Con(u, v, e) => format!("Con {} {} {}", u, v, e),
+        PSt::Try(u, v, e) => format!("Try {} {} {}", u, v, e),
+        PSt::Dis(u, v) => format!("Dis {} {}", u, v),
+        PSt::Iso(u) => format!("Iso {}", u),
+        PSt::Look(u, v) => format!("Look {} {}", u, v),
+        PSt::Lists => "Lists".into(),
+        PSt::Search(r, a, t, tg, tr, m) => format!("Search {} {} {} {} {} {}", r, a, t, tg, b(tr), m),
+        PSt::Order(r, p, tr, e, m) => format!("Order {} {} {} {} {}", r, b(p), b(tr), b(e), m),
+        PSt::GIns(u) => format!("GIns {}", u),
+        PSt::GRem(u) => format!("GRem {}", u),
+        PSt::GViews => "GViews".into(),
+        PSt::Scc => "Scc".into(),
+        PSt::Serde => "Serde".into(),
+    }
+}
+
+/// runs the payload-independence program for `prop` and reports trace differences
+pub fn payload_independence(ctx: &mut Ctx, prop: &'static str) {
+    let wd = ctx.watchdog.clone();
+    wd.limit_s.store(900, std::sync::atomic::Ordering::Relaxed);
+    let nscripts = ctx.tier.pick(60usize, 400usize);
+    let scripts = sample(ctx.seed, 1900, nscripts, &pscript_strategy(prop));
+    // the generated crate needs serde + serde_json (both in /repo's Cargo.lock); constant source, shared by all properties
+    let script_file = verif_root().join("out").join("progs").join(format!("payload-scripts-{}.txt", prop));
+    let mut text = String::new();
+    for sc in &scripts {
+        let _ = writeln!(text, "S {} {}", sc.n, sc.prio.iter().map(|p| p.to_string()).collect::<Vec<_>>().join(","));
+        for st in &sc.steps {
+            let _ = writeln!(text, "{}", pst_line(st));
+        }
+    }
+    let _ = std::fs::create_dir_all(script_file.parent().unwrap());
+    if std::fs::write(&script_file, text).is_err() {
+        ctx.inconclusive.push("cannot write the payload script file".into());
+        return;
+    }
+    let built = match build_and_run_args("payload", &[("payload", payload_program())], &wd, "serde = \"1\"\nserde_json = \"1\"\n", &[script_file.display().to_string()]) {
+        Ok(b) => b,
+        Err(e) => {
+            ctx.inconclusive.push(e);
+            return;
+        }
+    };
+    let p = &built["payload"];
+    if !p.ok && p.stdout.is_empty() {
+        ctx.inconclusive.push(format!("payload-independence program did not build/run: {}", trunc(&p.stderr, 900)));
+        return;
+    }
+    let mut same = 0u64;
+    for l in p.stdout.lines() {
+        if l.starts_with("SAME ") {
+            same += 1;
+            ctx.stats.eval();
+        } else if let Some(rest) = l.strip_prefix("DIFF ") {
+            ctx.stats.eval();
+            let f: Vec<&str> = rest.splitn(6, ' ').collect();
+            let (si, flavour, tag) = (f[0].parse::<usize>().unwrap_or(0), f[1], f[2]);
+            let first_tok = |s: &str| s.split('`').nth(1).unwrap_or("").split(' ').next().unwrap_or("").to_string();
+            let kind = first_tok(rest);
+            // a difference in the adjacency lists / edge operations is C03's business; other checks only report
+            // differences in their own kind of step while the edge operations agree
+            let edge_level = matches!(kind.as_str(), "con" | "try" | "dis" | "iso" | "lists" | "look" | "PANIC");
+            if edge_level && prop != "C03" {
+                ctx.stats.class("payload.edge-level-difference-left-to-C03");
+                continue;
+            }
+            let clause = "payload.trace-depends-on-payload-types";
+            ctx.stats.report(Finding {
+                property: prop.into(),
+                flavour: flavour.into(),
+                clause: clause.into(),
+                signature: format!("{} | payload types {} | first differing step kind: {} | {}", flavour, tag, kind, clause),
+                case: json!({"kind": "payload-script", "script": scripts.get(si), "flavour": flavour, "variant": tag}),
+                detail: trunc(rest, 900),
+            });
+        }
+    }
+    ctx.stats.class_n("payload.script-x-flavour-x-variant-identical", same);
+    for sc in scripts.iter().take(nscripts) {
+        ctx.stats.nontrivial(&("payload", sc));
+    }
+    ctx.stats.sample_kind("payload-script", 1, || json!({"payload_script": scripts[0], "run_with": ["(u16,i32,u32) baseline", "(String,i64,())", "(u64 near MAX, String, u64 near MAX)", "(char,i64,(u8,Vec<u8>))"], "on": MODS}));
+    ctx.stats.extra.insert("payload_independence".into(), json!({"scripts": nscripts, "variants": 3, "flavours": 4, "identical_traces": same}));
 }
